@@ -116,6 +116,20 @@ class NpShim:
             return x
         return self.array(x, dtype=dtype)
 
+    def ascontiguousarray(self, x, dtype=None, **k):
+        """numpy returns the argument ITSELF when it already is a contiguous array of the requested type (object arrays stand
+        for double arrays here); anything else is converted into a new array"""
+        if isinstance(x, _np.ndarray) and x.flags["C_CONTIGUOUS"] and (
+                x.dtype == object and dtype in (None, float, _np.double, _np.float64, object) or x.dtype != object and dtype in (None, x.dtype)):
+            return x
+        return self.array(x, dtype=dtype)
+
+    def asanyarray(self, x, dtype=None, **k):
+        return self.asarray(x, dtype=dtype)
+
+    def require(self, x, dtype=None, requirements=None, **k):
+        return self.ascontiguousarray(x, dtype=dtype)
+
     def copyto(self, dst, src, **k):
         if isinstance(dst, _np.ndarray) and dst.dtype == object:
             src = _np.asarray(src, dtype=object) if not isinstance(src, _np.ndarray) else src
